@@ -24,6 +24,52 @@ import (
 // ErrInjected is the transient lower-layer failure.
 var ErrInjected = errors.New("vstore: injected transient I/O error")
 
+// Shapes of the injected error (Env.ErrKind). Every shape satisfies
+// errors.Is(err, ErrInjected); the others additionally look like the errors a
+// real lower layer gives up with.
+const (
+	ErrPlain    = iota
+	ErrDeadline // errors.Is(err, context.DeadlineExceeded), Timeout() == true
+	ErrCanceled // errors.Is(err, context.Canceled)
+	ErrTimeout  // a net.Error-like value: Timeout() and Temporary() are true
+	NumErrKinds
+)
+
+type injErr struct{ kind int }
+
+func (e injErr) Error() string {
+	switch e.kind {
+	case ErrDeadline:
+		return ErrInjected.Error() + " (the lower layer's own request timed out: context deadline exceeded)"
+	case ErrCanceled:
+		return ErrInjected.Error() + " (the lower layer cancelled its own request: context canceled)"
+	case ErrTimeout:
+		return ErrInjected.Error() + " (i/o timeout)"
+	}
+	return ErrInjected.Error()
+}
+
+func (e injErr) Is(t error) bool {
+	return t == ErrInjected || e.kind == ErrDeadline && t == context.DeadlineExceeded || e.kind == ErrCanceled && t == context.Canceled
+}
+func (e injErr) Timeout() bool   { return e.kind == ErrDeadline || e.kind == ErrTimeout }
+func (e injErr) Temporary() bool { return e.kind == ErrTimeout }
+
+func (e *Env) injected() error {
+	if e.ErrKind == ErrPlain {
+		return ErrInjected
+	}
+	return injErr{e.ErrKind}
+}
+
+// wrongSize is the size a WrongSize fault reports for a blob of n bytes.
+func (e *Env) wrongSize(n uint32) uint32 {
+	if e.WrongSizeZero && n != 0 {
+		return 0
+	}
+	return n + 1
+}
+
 // ErrCrashed is returned by every call after the Env froze.
 var ErrCrashed = errors.New("vstore: process crashed (frozen lower layer)")
 
@@ -36,6 +82,7 @@ const (
 	FailAfter           // perform the mutation, then return ErrInjected (lost ack)
 	WrongSize           // receive: store, but report size+1; fetch/stat: report size+1
 	Corrupt             // fetch: return bytes with one bit flipped
+	ZeroSize            // receive: consume the data, store nothing, report (ref, size 0) without error; otherwise as WrongSize
 )
 
 // Event is one lower-layer call.
@@ -60,17 +107,19 @@ type Env struct {
 	keep   bool
 
 	// fault plan
-	FailSeq    map[int]Behaviour // by global call sequence number (1-based)
-	Match      func(e *Event) Behaviour
-	freezeMut  int // freeze when the mutating call with this number is ABOUT to run (0 = never)
-	frozen     bool
-	frozenAt   int
-	faultsHit  int
-	Stores     map[string]*Store
-	KVs        map[string]*KV
-	YieldHook  func(e *Event) // called outside the lock before each call (C14 schedule perturbation)
-	AfterHook  func(e *Event) // called after each call completed
-	BeforeMut  func(e *Event) // called (outside lock) right before a mutating call takes effect
+	ErrKind       int               // shape of the injected error (ErrPlain, ErrDeadline, ...)
+	WrongSizeZero bool              // WrongSize faults report 0 for a non-empty blob instead of size+1
+	FailSeq       map[int]Behaviour // by global call sequence number (1-based)
+	Match         func(e *Event) Behaviour
+	freezeMut     int // freeze when the mutating call with this number is ABOUT to run (0 = never)
+	frozen        bool
+	frozenAt      int
+	faultsHit     int
+	Stores        map[string]*Store
+	KVs           map[string]*KV
+	YieldHook     func(e *Event) // called outside the lock before each call (C14 schedule perturbation)
+	AfterHook     func(e *Event) // called after each call completed
+	BeforeMut     func(e *Event) // called (outside lock) right before a mutating call takes effect
 }
 
 func NewEnv() *Env {
@@ -333,7 +382,7 @@ func (s *Store) Fetch(ctx context.Context, br blob.Ref) (io.ReadCloser, uint32, 
 	}
 	if b == Fail || b == FailAfter {
 		s.env.end(ev, "injected")
-		return nil, 0, ErrInjected
+		return nil, 0, s.env.injected()
 	}
 	s.mu.RLock()
 	data, ok := s.m[br]
@@ -345,7 +394,7 @@ func (s *Store) Fetch(ctx context.Context, br blob.Ref) (io.ReadCloser, uint32, 
 	size := uint32(len(data))
 	switch b {
 	case WrongSize:
-		size++
+		size = s.env.wrongSize(size)
 	case Corrupt:
 		data = append([]byte(nil), data...)
 		if len(data) > 0 {
@@ -371,7 +420,7 @@ func (s *Store) SubFetch(ctx context.Context, br blob.Ref, offset, length int64)
 	}
 	if b == Fail || b == FailAfter {
 		s.env.end(ev, "injected")
-		return nil, ErrInjected
+		return nil, s.env.injected()
 	}
 	s.mu.RLock()
 	data, ok := s.m[br]
@@ -411,7 +460,11 @@ func (s *Store) ReceiveBlob(ctx context.Context, br blob.Ref, src io.Reader) (bl
 	}
 	if b == Fail {
 		s.env.end(ev, "injected")
-		return blob.SizedRef{}, ErrInjected
+		return blob.SizedRef{}, s.env.injected()
+	}
+	if b == ZeroSize && len(data) > 0 {
+		s.env.end(ev, "zero-size")
+		return blob.SizedRef{Ref: br}, nil
 	}
 	s.mu.Lock()
 	if _, had := s.m[br]; !had {
@@ -420,11 +473,11 @@ func (s *Store) ReceiveBlob(ctx context.Context, br blob.Ref, src io.Reader) (bl
 	s.mu.Unlock()
 	if b == FailAfter {
 		s.env.end(ev, "injected-after")
-		return blob.SizedRef{}, ErrInjected
+		return blob.SizedRef{}, s.env.injected()
 	}
 	size := uint32(len(data))
 	if b == WrongSize {
-		size++
+		size = s.env.wrongSize(size)
 	}
 	s.env.end(ev, "ok")
 	return blob.SizedRef{Ref: br, Size: size}, nil
@@ -437,7 +490,7 @@ func (s *Store) StatBlobs(ctx context.Context, blobs []blob.Ref, fn func(blob.Si
 	}
 	if b == Fail || b == FailAfter {
 		s.env.end(ev, "injected")
-		return ErrInjected
+		return s.env.injected()
 	}
 	for _, br := range blobs {
 		s.mu.RLock()
@@ -448,7 +501,7 @@ func (s *Store) StatBlobs(ctx context.Context, blobs []blob.Ref, fn func(blob.Si
 		}
 		size := uint32(len(data))
 		if b == WrongSize {
-			size++
+			size = s.env.wrongSize(size)
 		}
 		if err := fn(blob.SizedRef{Ref: br, Size: size}); err != nil {
 			s.env.end(ev, "fn-error")
@@ -474,7 +527,7 @@ func (s *Store) EnumerateBlobs(ctx context.Context, dest chan<- blob.SizedRef, a
 	}
 	if b == Fail || b == FailAfter {
 		s.env.end(ev, "injected")
-		return ErrInjected
+		return s.env.injected()
 	}
 	s.mu.RLock()
 	type kv struct {
@@ -521,14 +574,14 @@ func (s *Store) RemoveBlobs(ctx context.Context, blobs []blob.Ref) error {
 		}
 		if b == Fail {
 			s.env.end(ev, "injected")
-			return ErrInjected
+			return s.env.injected()
 		}
 		s.mu.Lock()
 		delete(s.m, br)
 		s.mu.Unlock()
 		if b == FailAfter {
 			s.env.end(ev, "injected-after")
-			return ErrInjected
+			return s.env.injected()
 		}
 		s.env.end(ev, "ok")
 	}
@@ -590,7 +643,7 @@ func (k *KV) Wipe() error {
 	}
 	if b == Fail {
 		k.env.end(ev, "injected")
-		return ErrInjected
+		return k.env.injected()
 	}
 	k.inner = sorted.NewMemoryKeyValue()
 	k.env.end(ev, "ok")
@@ -604,7 +657,7 @@ func (k *KV) Get(key string) (string, error) {
 	}
 	if b == Fail || b == FailAfter {
 		k.env.end(ev, "injected")
-		return "", ErrInjected
+		return "", k.env.injected()
 	}
 	v, err := k.inner.Get(key)
 	k.env.end(ev, "ok")
@@ -618,12 +671,12 @@ func (k *KV) Set(key, value string) error {
 	}
 	if b == Fail {
 		k.env.end(ev, "injected")
-		return ErrInjected
+		return k.env.injected()
 	}
 	err = k.inner.Set(key, value)
 	if b == FailAfter {
 		k.env.end(ev, "injected-after")
-		return ErrInjected
+		return k.env.injected()
 	}
 	k.env.end(ev, "ok")
 	return err
@@ -636,12 +689,12 @@ func (k *KV) Delete(key string) error {
 	}
 	if b == Fail {
 		k.env.end(ev, "injected")
-		return ErrInjected
+		return k.env.injected()
 	}
 	err = k.inner.Delete(key)
 	if b == FailAfter {
 		k.env.end(ev, "injected-after")
-		return ErrInjected
+		return k.env.injected()
 	}
 	k.env.end(ev, "ok")
 	return err
@@ -657,12 +710,12 @@ func (k *KV) CommitBatch(bm sorted.BatchMutation) error {
 	}
 	if b == Fail {
 		k.env.end(ev, "injected")
-		return ErrInjected
+		return k.env.injected()
 	}
 	err = k.inner.CommitBatch(bm)
 	if b == FailAfter {
 		k.env.end(ev, "injected-after")
-		return ErrInjected
+		return k.env.injected()
 	}
 	k.env.end(ev, "ok")
 	return err
@@ -670,12 +723,12 @@ func (k *KV) CommitBatch(bm sorted.BatchMutation) error {
 
 type errIter struct{ err error }
 
-func (errIter) Next() bool          { return false }
-func (errIter) Key() string         { return "" }
-func (errIter) KeyBytes() []byte    { return nil }
-func (errIter) Value() string       { return "" }
-func (errIter) ValueBytes() []byte  { return nil }
-func (e errIter) Close() error      { return e.err }
+func (errIter) Next() bool         { return false }
+func (errIter) Key() string        { return "" }
+func (errIter) KeyBytes() []byte   { return nil }
+func (errIter) Value() string      { return "" }
+func (errIter) ValueBytes() []byte { return nil }
+func (e errIter) Close() error     { return e.err }
 
 func (k *KV) Find(start, end string) sorted.Iterator {
 	ev, b, err := k.env.begin(k.layer(), "find", start, 0, false)
@@ -684,7 +737,7 @@ func (k *KV) Find(start, end string) sorted.Iterator {
 	}
 	if b == Fail || b == FailAfter {
 		k.env.end(ev, "injected")
-		return errIter{ErrInjected}
+		return errIter{k.env.injected()}
 	}
 	it := k.inner.Find(start, end)
 	k.env.end(ev, "ok")
